@@ -65,6 +65,7 @@ pub struct St {
     pub ok: bool, pub oc: int, pub nc: int, pub ro: int, pub rn: int, pub po: int, pub pn: int,
     pub dels: int, pub inss: int, pub eqs: int, pub oe: int, pub ne: int,
     pub fin: bool,          // `finish` has been received: nothing may follow
+    pub strict: bool,       // carried indices are checked (false: only the cursor side of every event is checked)
 }
 
 pub open spec fn imax(a: int, b: int) -> int { if a >= b { a } else { b } }
@@ -85,25 +86,25 @@ pub open spec fn rel_implies(a: Rel, b: Rel) -> bool { forall|i: int, j: int| #[
 pub open spec fn step_rel(rel: Rel, st: St, ev: Ev) -> St {
     match ev {
         Ev::Equal(o, n, l) => St {
-            ok: st.ok && !st.fin && l > 0 && o == st.oc && n == st.nc && st.po <= st.oc && st.pn <= st.nc
+            ok: st.ok && !st.fin && l > 0 && o == st.oc && n == st.nc && (st.strict ==> st.po <= st.oc && st.pn <= st.nc)
                 && st.oc + l <= st.oe && st.nc + l <= st.ne
                 && (forall|i: int| 0 <= i < l ==> #[trigger] relk(rel, o as int, n as int, i)),
             oc: st.oc + l, nc: st.nc + l, ro: st.oc + l, rn: st.nc + l, po: st.oc + l, pn: st.nc + l,
             eqs: st.eqs + l, ..st },
         Ev::Delete(o, l, n) => St {
-            ok: st.ok && !st.fin && l > 0 && o == st.oc && st.rn <= n && st.oc + l <= st.oe,
+            ok: st.ok && !st.fin && l > 0 && o == st.oc && (st.strict ==> st.rn <= n) && st.oc + l <= st.oe,
             oc: st.oc + l, pn: imax(st.pn, n as int), dels: st.dels + l, ..st },
         Ev::Insert(o, n, l) => St {
-            ok: st.ok && !st.fin && l > 0 && n == st.nc && st.ro <= o && st.nc + l <= st.ne,
+            ok: st.ok && !st.fin && l > 0 && n == st.nc && (st.strict ==> st.ro <= o) && st.nc + l <= st.ne,
             nc: st.nc + l, po: imax(st.po, o as int), inss: st.inss + l, ..st },
         Ev::Replace(o, ol, n, nl) => St {
             // by definition the same as Delete(o, ol, n) followed by Insert(o, n, nl)
-            ok: st.ok && !st.fin && ol > 0 && nl > 0 && o == st.oc && n == st.nc && st.rn <= n && st.ro <= o
+            ok: st.ok && !st.fin && ol > 0 && nl > 0 && o == st.oc && n == st.nc && (st.strict ==> st.rn <= n && st.ro <= o)
                 && st.oc + ol <= st.oe && st.nc + nl <= st.ne,
             oc: st.oc + ol, nc: st.nc + nl, pn: imax(st.pn, n as int), po: imax(st.po, o as int),
             dels: st.dels + ol, inss: st.inss + nl, ..st },
         // `finish` is accepted once, when every carried index is resolved; it closes the script
-        Ev::Finish => St { ok: st.ok && !st.fin && st.po <= st.oc && st.pn <= st.nc, fin: true, ..st },
+        Ev::Finish => St { ok: st.ok && !st.fin && (st.strict ==> st.po <= st.oc && st.pn <= st.nc), fin: true, ..st },
     }
 }
 
@@ -145,17 +146,20 @@ pub proof fn lemma_run_empty(rel: Rel, st: St)
 
 /// canonical start state at (o,n) for the box ending at (oe,ne)
 pub open spec fn canon(o: int, n: int, oe: int, ne: int) -> St {
-    St { ok: true, oc: o, nc: n, ro: o, rn: n, po: o, pn: n, dels: 0, inss: 0, eqs: 0, oe: oe, ne: ne, fin: false }
+    St { ok: true, oc: o, nc: n, ro: o, rn: n, po: o, pn: n, dels: 0, inss: 0, eqs: 0, oe: oe, ne: ne, fin: false, strict: true }
 }
 
+/// canonical start state that does not check carried indices
+pub open spec fn canon_lax(o: int, n: int, oe: int, ne: int) -> St { St { strict: false, ..canon(o, n, oe, ne) } }
+
 pub open spec fn wf(st: St) -> bool {
-    st.ok && !st.fin && st.ro <= st.oc && st.rn <= st.nc && st.po <= st.oc && st.pn <= st.nc && st.oc <= st.oe && st.nc <= st.ne
+    st.ok && !st.fin && st.ro <= st.oc && st.rn <= st.nc && (st.strict ==> st.po <= st.oc && st.pn <= st.nc) && st.oc <= st.oe && st.nc <= st.ne
 }
 
 /// `a` simulates `c`: same cursor, weaker run bounds, wider box
 pub open spec fn sim(a: St, c: St) -> bool {
-    a.oc == c.oc && a.nc == c.nc && a.ro <= c.ro && a.rn <= c.rn && a.po <= c.po && a.pn <= c.pn
-    && a.oe >= c.oe && a.ne >= c.ne && a.fin == c.fin && (c.ok ==> a.ok)
+    a.oc == c.oc && a.nc == c.nc && a.ro <= c.ro && a.rn <= c.rn && (a.strict ==> a.po <= c.po && a.pn <= c.pn)
+    && a.oe >= c.oe && a.ne >= c.ne && a.fin == c.fin && (a.strict ==> c.strict) && (c.ok ==> a.ok)
 }
 
 pub proof fn lemma_sim_step(r1: Rel, r2: Rel, a: St, c: St, e: Ev)
@@ -194,7 +198,7 @@ pub proof fn lemma_mono(rel: Rel, st: St, s: Seq<Ev>)
   requires st.ro <= st.oc, st.rn <= st.nc
   ensures ({ let st2 = run_rel(rel, st, s); st2.ro <= st2.oc && st2.rn <= st2.nc && st2.oc >= st.oc && st2.nc >= st.nc
       && st2.oe == st.oe && st2.ne == st.ne && st2.eqs >= st.eqs && st2.dels >= st.dels && st2.inss >= st.inss && (st2.ok ==> st.ok)
-      && (st.fin ==> st2.fin) && (st2.ok && st.oc <= st.oe && st.nc <= st.ne ==> st2.oc <= st2.oe && st2.nc <= st2.ne) })
+      && (st.fin ==> st2.fin) && st2.strict == st.strict && (st2.ok && st.oc <= st.oe && st.nc <= st.ne ==> st2.oc <= st2.oe && st2.nc <= st2.ne) })
   decreases s.len()
 {
     reveal(step_rel);
